@@ -170,9 +170,9 @@ func runC17(cfg runCfg) error {
 	w := &caseWriter{dir: cfg.out, shard: 6, check: "check_introspect_case",
 		imports: "From V Require Import Base.Util Gql.Ast Model.Perm Model.View Model.Introspect Corr.IntrospectCheck."}
 	type src struct {
-		name string
-		gw   *gatewayUnderTest
-		off  *gatewayUnderTest
+		name  string
+		gw    *gatewayUnderTest
+		off   *gatewayUnderTest
 		sdl0  string // the published schema as it was when the gateway was built
 		term0 string // and the term the model is given for it
 	}
